@@ -1126,9 +1126,19 @@ def run_cdf(case, ctx, teneva):
         x = rng.integers(-3, 4, size=m).astype(float)      # many ties
     else:
         x = np.round(rng.normal(size=m), 1)                # some ties
+    presorted = rng.random() < 0.3
+    if presorted:
+        x = np.sort(x)                   # the sample as it often arrives
     xs = np.sort(x)
-    arg = x.tolist() if rng.random() < 0.5 else x.copy()
+    arg = x.tolist() if rng.random() < 0.4 else x.copy()
     cdf = teneva.cdf_getter(arg)
+    if isinstance(arg, np.ndarray):
+        # the getter is the step function of the sample it was built from:
+        # the caller re-uses its buffer afterwards
+        ctx.check('cdf', np.array_equal(arg, x), 'cdf_getter changed its '
+            'argument')
+        arg[...] = rng.normal(size=m) * 7 + 3
+        ctx.event('cdf-sample-buffer-overwritten-after-construction')
     span = float(xs[-1] - xs[0]) + 1.0
     z = np.concatenate([xs, np.nextafter(xs, -np.inf),
         np.nextafter(xs, np.inf), (xs[1:] + xs[:-1]) / 2,
